@@ -184,7 +184,8 @@ fn encode_truncated(kind: u8) {
     let ah = crate::header::model::AddressHeader::new(src, dst);
     let mut pseudo = [0u8; 24];
     assert!(ah.try_encode(&mut pseudo[..]) == Ok(24));
-    let mut buf = [0u8; 256];
+    // the output buffer is re-used by callers (the SNAP gateway's pool): arbitrary prior contents
+    let mut buf: [u8; 256] = kani::any();
     let j: usize = kani::any();
     let Ok(n) = msg.try_encode(&mut buf[..], &ah, HDR) else {
         assert!(false, "SCMP message refused by the encoder");
